@@ -138,12 +138,15 @@ PROBES = {
         "start :: fn do\n    x := 1\n    x = 2\nend\n",
         "start :: fn do\n    x := 1\n    (x) = 2\nend\n"),
     "missing-final-newline": ("unjudged", "start :: fn do\nend\n", "start :: fn do\nend"),
-    # the Loop arm of statement() calls ctx.prev() after the body, assuming the body statement consumed a newline; when
-    # the body ended on `end` the first `end` is read twice and the enclosing block closes one `end` early (debug
-    # builds: `attempt to subtract with overflow` in comments_since_last_statement).  Reported 2026-09-26, not yet judged.
-    "loop-body-end-then-end-on-one-line": ("unjudged",
+    # fixed by /repo 6634c32: the Loop arm of statement() stepped back one token after its body even when the body had
+    # been ended by `end` on the same line, so the first `end` was read twice (overflow-checked builds panicked in
+    # comments_since_last_statement).  Both layouts must be accepted with the same Lua.
+    "loop-body-end-then-end-on-one-line": ("judged",
         "start :: fn do\n    if true do loop do break end\n    end\nend\n",
         "start :: fn do\n    if true do loop do break end end\nend\n"),
+    "loop-body-statement-then-else-on-one-line": ("judged",
+        "start :: fn do\n    x := 0\n    if true do\n        loop x < 3 x += 1\n    else\n        x = 2\n    end\nend\n",
+        "start :: fn do\n    x := 0\n    if true do loop x < 3 x += 1 else x = 2 end\nend\n"),
     "parenthesised-callee-index-base-type": ("judged",
         "f :: fn -> int do\n    ret 1\nend\nstart :: fn do\n    t := (1, 2)\n    a: int = t[0]\n    b := f()\n    f()\nend\n",
         "f :: fn -> int do\n    ret 1\nend\nstart :: fn do\n    t := (1, 2)\n    a: (int) = (t)[0]\n    b := (f)()\n    (f())\nend\n"),
